@@ -1,10 +1,13 @@
 #!/bin/sh
-# tools/soak.sh <tier> <ids...> : run each check for several seeds; print one line per run
+# tools/soak.sh <tier> <seeds, comma separated or 'std'> <ids...> : run each check for several seeds; one line per run
 tier=$1; shift
+seeds=$1; shift
+[ "$seeds" = std ] && seeds="0,2,3,12345,2147483647"
 for id in "$@"; do
-  for seed in 0 2 3 12345 2147483647; do
+  for seed in $(echo $seeds | tr ',' ' '); do
+    t0=$(date +%s)
     out=$(VERIF_SEED=$seed ./check $id --tier $tier 2>&1); rc=$?
-    echo "$id seed=$seed tier=$tier rc=$rc $(echo "$out" | grep -E '^(HELD|VIOLATION|INCONCLUSIVE|KNOWN)' | head -3 | tr '\n' ' ')"
+    echo "$id seed=$seed tier=$tier rc=$rc $(( $(date +%s) - t0 ))s $(echo "$out" | grep -E '^(HELD|VIOLATION|INCONCLUSIVE|KNOWN)' | head -3 | tr '\n' ' ')"
     if [ $rc -ne 0 ]; then echo "$out" | grep -E "key=" | head -5; fi
   done
 done
